@@ -289,9 +289,9 @@ Example C20_indep_unconditional_run :
 Proof. vm_compute. repeat split; reflexivity. Qed.
 
 (* any preferences (lz4file.c's default is LINKED blocks): the block compressor is the model of LZ4_compress_fast_continue
-   (Proofs/BlkInstLinked.v), driven by an oracle of stream states satisfying the C11 invariants and consistent with the
+   (Proofs/BlkInstFastLinked.v), driven by an oracle of stream states satisfying the C11 invariants and consistent with the
    history the LZ4F model offers *)
-From LZ4V Require Import Model.FastStream Proofs.BlkInstLinked.
+From LZ4V Require Import Model.FastStream Proofs.BlkInstFastLinked.
 Theorem C20_roundtrip_stream_unconditional : forall st, (forall n, lorc_ok (st n)) ->
   forall (po : option prefs) (mw : nat) (bufs : list (list byte)) (sizes : list nat) (junk : list byte),
     maxWrite_of po = Some mw -> FileProofs.csize_ok po (concat bufs) -> prefs_wf po ->
